@@ -525,7 +525,22 @@ type GlobalInv struct {
 	File   string
 }
 
+// Structural obligations decided on the type information / call graph rather than by SMT:
+//   callers <callee>: f, g      every static call of <callee> (prefix "lib:" + package path for a whole package) is in f or g
+//   writers T.f: f, g           every store to field f of T is in f or g
+//   jsonfields T: a, b.c        the JSON field names of T (recursively) are exactly the listed ones
+type Structural struct {
+	Kind    string
+	Pkg     string
+	Target  string
+	Allowed []string
+	Serves  []string
+	File    string
+	Line    int
+}
+
 type Specs struct {
+	Structurals []*Structural
 	Contracts  map[string]*Contract
 	Funcs      map[string]*SpecFunc // by pkg.name and bare name
 	Ghosts     map[string]*GhostVar
@@ -560,7 +575,7 @@ func (sp *Specs) parseSpecText(pkg, file, text string) {
 	}
 	// group: top-level items start with func / assume func / pure func / ghost var / lemma / lockinv / axiom / globalinv / typeinv
 	isTop := func(s string) bool {
-		for _, p := range []string{"func ", "assume func ", "pure func ", "ghost var ", "lemma ", "lockinv ", "axiom ", "globalinv ", "typeinv "} {
+		for _, p := range []string{"func ", "assume func ", "pure func ", "ghost var ", "lemma ", "lockinv ", "axiom ", "globalinv ", "typeinv ", "callers ", "jsonfields ", "writers "} {
 			if strings.HasPrefix(s, p) {
 				return true
 			}
@@ -675,6 +690,24 @@ func (sp *Specs) parseSpecText(pkg, file, text string) {
 					}
 					gname, serves := splitServes(rest[:i])
 					sp.GlobalInvs = append(sp.GlobalInvs, &GlobalInv{Pkg: pkg, Global: gname, Serves: serves, Text: strings.TrimSpace(rest[i+1:]), E: e, Line: n, File: file})
+				}}
+			case strings.HasPrefix(s, "callers ") || strings.HasPrefix(s, "jsonfields ") || strings.HasPrefix(s, "writers "):
+				kind := strings.Fields(s)[0]
+				pend = &pending{txt: s, n: l.n, set: func(text string, n int) {
+					rest := strings.TrimSpace(strings.TrimPrefix(text, kind))
+					i := strings.Index(rest, ":")
+					if i < 0 {
+						errf(n, "%s <target> [serves ..]: a, b, c", kind)
+						return
+					}
+					target, serves := splitServes(rest[:i])
+					st := &Structural{Kind: kind, Pkg: pkg, Target: target, Serves: serves, File: file, Line: n}
+					for _, x := range strings.Split(rest[i+1:], ",") {
+						if x = strings.TrimSpace(x); x != "" {
+							st.Allowed = append(st.Allowed, x)
+						}
+					}
+					sp.Structurals = append(sp.Structurals, st)
 				}}
 			case strings.HasPrefix(s, "typeinv "):
 				pend = &pending{txt: s, n: l.n, set: func(text string, n int) {
